@@ -9,7 +9,7 @@
 //   enum(<name>;<idx hex>:T,...)   a VaryingDataType registered below under <name>
 // value (type directed, no spaces):
 //   unsigned: hex   signed: [-]hex   bool: t|f   bytes/str: hex or - (empty)
-//   opt: N | S<v>   res: O<v> | E<v>   enum: V<idx hex>:<v>
+//   opt: N | S<v>   res: O<v> | E<v> (U = unset, destinations only)   enum: V<idx hex>:<v>
 //   arr/sl/st: [v,v,...] (struct fields in declaration order)   map: {k:v,...} keys ascending
 //
 // The concrete Go types are built from the descriptions by reflection (reflect.StructOf with
@@ -82,6 +82,36 @@ var svuNamedTypes = map[string]reflect.Type{
 	"u64": reflect.TypeOf(svuNU64(0)), "i8": reflect.TypeOf(svuNI8(0)), "i16": reflect.TypeOf(svuNI16(0)),
 	"i32": reflect.TypeOf(svuNI32(0)), "i64": reflect.TypeOf(svuNI64(0)), "uint": reflect.TypeOf(svuNUint(0)),
 	"int": reflect.TypeOf(svuNInt(0)), "bool": reflect.TypeOf(svuNBool(false)), "str": reflect.TypeOf(svuNStr("")),
+}
+
+// ---- declared struct types for some table descriptions (field names as reflect.StructOf gives them)
+type svuNamedS1 struct {
+	F0 uint8  `scale:"2"`
+	F1 uint16 `scale:"1"`
+	F2 uint32 `scale:"0"`
+}
+type svuNamedS2 struct {
+	F0 uint8 `scale:"1"`
+	F1 uint16
+	F2 uint32 `scale:"0"`
+	F3 bool
+}
+type svuNamedS3 struct {
+	F0 []byte
+	F1 *string
+	F2 uint
+}
+type svuNamedS4 struct {
+	F0 *big.Int `scale:"5"`
+	F1 *Uint128 `scale:"3"`
+	F2 int
+}
+
+var svuNamedStructs = map[string]reflect.Type{
+	"st(2:u8,1:u16,0:u32)":          reflect.TypeOf(svuNamedS1{}),
+	"st(1:u8,_:u16,0:u32,_:bool)":   reflect.TypeOf(svuNamedS2{}),
+	"st(_:bytes,_:opt(str),_:uint)": reflect.TypeOf(svuNamedS3{}),
+	"st(5:big,3:u128,_:int)":        reflect.TypeOf(svuNamedS4{}),
 }
 
 // ---- enums: a generic VaryingDataType whose alternatives come from a schema type
@@ -302,6 +332,11 @@ func (p *svuParser) ty() *svuTy {
 			}
 		}
 		t.gt = reflect.StructOf(fields)
+		if named, ok := svuNamedStructs[p.s[start:p.pos]]; ok {
+			// a declared (named) struct type with the same fields: pkg/scale caches the field
+			// order of named types only (fieldScaleIndicesCache), anonymous ones are recomputed
+			t.gt = named
+		}
 		return t
 	case "enum":
 		p.eat('(')
@@ -405,6 +440,10 @@ func (p *svuParser) val(t *svuTy) reflect.Value {
 		p.pos++
 		res := svuResultProto(t)
 		var err error
+		if c == 'U' { // the unset prototype (only used to pre-populate destinations)
+			out.Set(reflect.ValueOf(res))
+			break
+		}
 		if c == 'O' {
 			err = res.Set(OK, p.val(t.a).Interface())
 		} else {
@@ -930,6 +969,53 @@ func svuGenVal(r *vu.RNG, t *svuTy, budget *int) string {
 		return "{" + strings.Join(parts, ",") + "}"
 	}
 	panic("svu: gen kind")
+}
+
+// svuGenDirt generates the text of a value to PRE-POPULATE a decode destination with (decoding
+// must not depend on what the destination held before).  Two kinds of content are left out,
+// because pkg/scale's handling of them is recorded separately (see props/C12/harness_test.go):
+// maps are empty (decodeMap adds to a non-empty destination map, like encoding/json), and an
+// option whose element is itself represented by a Go pointer (option, *big.Int, *Uint128) is
+// None (finding C12 dirty-nested-option).
+func svuGenDirt(r *vu.RNG, t *svuTy, budget *int) string {
+	*budget--
+	switch t.kind {
+	case svuOpt:
+		ptrRepr := t.a.kind == svuOpt || (t.a.kind == svuPrim && (t.a.prim == "big" || t.a.prim == "u128"))
+		if ptrRepr || r.Chance(1, 5) {
+			return "N"
+		}
+		return "S" + svuGenDirt(r, t.a, budget)
+	case svuRes:
+		// a scale.Result can be set once (Set returns ErrResultAlreadySet afterwards), so a
+		// destination Result is always the unset prototype: value text U
+		return "U"
+	case svuEnum:
+		i := r.Intn(len(t.fs))
+		return fmt.Sprintf("V%x:%s", t.idx[i], svuGenDirt(r, t.fs[i], budget))
+	case svuArr, svuSl:
+		n := t.n
+		if t.kind == svuSl {
+			n = 1 + r.Intn(3)
+			if *budget < 0 {
+				n = 0
+			}
+		}
+		parts := make([]string, n)
+		for i := range parts {
+			parts[i] = svuGenDirt(r, t.a, budget)
+		}
+		return "[" + strings.Join(parts, ",") + "]"
+	case svuSt:
+		parts := make([]string, len(t.fs))
+		for i, f := range t.fs {
+			parts[i] = svuGenDirt(r, f, budget)
+		}
+		return "[" + strings.Join(parts, ",") + "]"
+	case svuMap:
+		return "{}"
+	}
+	return svuGenVal(r, t, budget)
 }
 
 // svuPickTy picks a table type or generates a random one.
